@@ -488,16 +488,24 @@ func (c16) Gen(seed int64, tier string, emit func(any)) {
 	c16Emit(emit, "json", "index", c16Arr(0, 0), "-1")
 	c16Emit(emit, "json", "index", c16Arr(3, 0), "0", "-4")
 
-	// 1. exhaustive: lengths 0..20 x k in [-30,30], `[k]` and `[[/k]]`, json / yaml / jsonl
+	// 1. exhaustive: lengths 0..20 x k in [-30,30], `[k]` and `[[/k]]`, json / yaml / jsonl.
+	// quick: the whole grid for json; for yaml and jsonl every boundary index
+	// (-n-1, -n, -1, 0, n-1, n) and half / a third of the rest. thorough: everything,
+	// with all three element flavours.
 	for n := 0; n <= 20; n++ {
 		for k := -30; k <= 30; k++ {
 			ks := strconv.Itoa(k)
 			fl := (n + k + 60) % 3 // which element flavour: spreads the three over the grid
+			boundary := k == -n-1 || k == -n || k == -1 || k == 0 || k == n-1 || k == n
+			half := thorough || boundary || (n+k+60)%2 == 0
+			third := thorough || boundary || (n+k+60)%3 == 0
 			if !thorough {
 				c16Emit(emit, "json", "index", c16Arr(n, fl), ks)
 				c16Emit(emit, "json", "elem", c16Arr(n, fl), "/"+ks)
-				c16Emit(emit, "yaml", "index", c16Arr(n, (fl+1)%3), ks)
-				c16Emit(emit, "yaml", "elem", c16Arr(n, (fl+1)%3), "/"+ks)
+				if half {
+					c16Emit(emit, "yaml", "index", c16Arr(n, (fl+1)%3), ks)
+					c16Emit(emit, "yaml", "elem", c16Arr(n, (fl+1)%3), "/"+ks)
+				}
 			} else {
 				for f := 0; f < 3; f++ {
 					c16Emit(emit, "json", "index", c16Arr(n, f), ks)
@@ -506,16 +514,22 @@ func (c16) Gen(seed int64, tier string, emit func(any)) {
 					c16Emit(emit, "yaml", "elem", c16Arr(n, f), "/"+ks)
 				}
 			}
-			c16Emit(emit, "jsonl", "index", c16Rows(n, (n+k)%2 == 0), ks)
-			c16Emit(emit, "jsonl", "elem", c16Rows(n, false), "/"+ks)
-			if thorough || (n+k)%4 == 0 {
-				c16Emit(emit, "jsonl", "index", c16Rows(n, (n+k)%2 != 0), ks)
+			if half {
+				c16Emit(emit, "jsonl", "index", c16Rows(n, (n+k+60)%4 < 2), ks)
+			}
+			if third {
+				c16Emit(emit, "jsonl", "elem", c16Rows(n, false), "/"+ks)
+			}
+			if thorough || (boundary && n%2 == 0) {
+				c16Emit(emit, "jsonl", "index", c16Rows(n, (n+k+60)%4 >= 2), ks)
 				c16Emit(emit, "jsonl", "elem", c16Rows(n, true), "/"+ks)
 			}
-			if k >= 0 && (thorough || (n+k)%3 == 0) {
+			if k >= 0 && third {
 				c16Emit(emit, "json", "not", c16Arr(n, fl), ks)
 				c16Emit(emit, "yaml", "not", c16Arr(n, fl), ks)
-				c16Emit(emit, "jsonl", "not", c16Rows(n, k%2 == 0), ks)
+				if thorough || boundary {
+					c16Emit(emit, "jsonl", "not", c16Rows(n, k%2 == 0), ks)
+				}
 			}
 		}
 	}
@@ -560,7 +574,7 @@ func (c16) Gen(seed int64, tier string, emit func(any)) {
 
 	// 4. random: maps and nested documents
 	r := rand.New(rand.NewSource(seed))
-	nrand := 500
+	nrand := 400
 	if thorough {
 		nrand = 12000
 	}
